@@ -72,6 +72,11 @@ class ApproxReader(GateReader):
             if v.key not in self.assume:
                 raise NeedAssumption(v.key)
             return self.assume[v.key]
+        if isinstance(v, T) and v.op == "num":
+            return v.val != 0
+        if isinstance(v, T):
+            # the truth value of a number nobody knows: both are explored
+            return self.truthy(Verdict("nonzero", v, None), n)
         return super().truthy(v, n)
 
     def global_value(self, n):
@@ -129,6 +134,9 @@ class ApproxReader(GateReader):
                         return True if r == INF else inf_
                     if isinstance(o, ast.Gt):
                         return False if r == INF else (not inf_)
+            if isinstance(l, (T, int)) and isinstance(r, (T, int)) and not isinstance(l, bool) and not isinstance(r, bool) and (isinstance(l, T) or isinstance(r, T)):
+                # an ordering of two numbers nobody knows: an opaque condition, both outcomes are explored
+                return Verdict(type(o).__name__, l, r)
         return super().hook_compare(o, l, r, n)
 
     def hook_call(self, n, env, fns):
@@ -148,8 +156,22 @@ class ApproxReader(GateReader):
             v = self.ev(n.args[0], env, fns)
             if isinstance(v, (T, int)):
                 return self._is_inf(v)
-        if name in ("float", "bool", "N") and len(n.args) == 1:
+        if name in ("float", "complex", "N") and len(n.args) == 1:
+            v = self.ev(n.args[0], env, fns)
+            if isinstance(v, (T, int)):
+                return v
+            self.fail(n, f"{name}() of {type(v).__name__}")
+        if name == "bool" and len(n.args) == 1:
             return self.ev(n.args[0], env, fns)
+        if name in ("max", "min") and n.args and name not in self.functions:
+            vals = [self.ev(a, env, fns) for a in n.args]
+            kw_ = {k.arg: self.ev(k.value, env, fns) for k in n.keywords if k.arg}
+            if len(vals) == 1 and isinstance(vals[0], list):
+                vals = vals[0]
+            if not vals and "default" in kw_:
+                return kw_["default"]
+            if vals and all(isinstance(v, (T, int, float, Fraction)) and not isinstance(v, bool) for v in vals) and set(kw_) <= {"default"}:
+                return vals[0] if len(vals) == 1 else app(name.capitalize(), *[v if isinstance(v, T) else num(Fraction(v)) for v in vals])
         if name in ("re", "im") and len(n.args) == 1 and name not in self.functions:
             v = self.ev(n.args[0], env, fns)
             if isinstance(v, (T, int)):
@@ -347,10 +369,12 @@ def check(run: Run) -> None:
                                 f"the result must be their conjunction")
 
     # ------------------------------------------------------------------ A6: assert_equal
-    for label, lk, rk in (("quantities", "q", "q"), ("bare rhs", "q", "n"), ("bare lhs", "n", "q"), ("both bare", "n", "n")):
+    TOLS = (("both tolerances given", RL, AB), ("defaults", None, None), ("relative given", RL, None), ("absolute given", None, AB))
+    for (label, lk, rk), (tlabel, rel, abs_) in itertools.product((("quantities", "q", "q"), ("bare rhs", "q", "n"), ("bare lhs", "n", "q"), ("both bare", "n", "n")), TOLS):
+        label = f"{label}, {tlabel}"
         lq = qobj("L", D) if lk == "q" else var("lhsnumber")
         rq = qobj("R", D) if rk == "q" else var("rhsnumber")
-        runs = explore(tree, "assert_equal", [lq, rq], {"relative_tolerance": RL, "absolute_tolerance": AB, "dimension": D})
+        runs = explore(tree, "assert_equal", [lq, rq], {"relative_tolerance": rel, "absolute_tolerance": abs_, "dimension": D})
         run.ob("A6", f"assert_equal:{label}")
         run.ob("A5", f"assert_equal:{label}")
         reported = set()
@@ -381,7 +405,7 @@ def check(run: Run) -> None:
             if not (isinstance(lhs_obj, Obj) and isinstance(rhs_obj, Obj)):
                 continue
             sl, sr = var(f"si({lhs_obj.tag})"), var(f"si({rhs_obj.tag})")
-            need = [next((v for v in R.verdicts.values() if verdict_matches(v, app(p_, sl), app(p_, sr), RL, AB)), None) for p_ in ("re", "im")]
+            need = [next((v for v in R.verdicts.values() if verdict_matches(v, app(p_, sl), app(p_, sr), rel, abs_)), None) for p_ in ("re", "im")]
             if outcome[0] == "returns":
                 # the assertion passed: every run that passes must have seen both comparisons, with the caller's tolerances, true
                 if any(v is None for v in need):
@@ -405,21 +429,27 @@ def check(run: Run) -> None:
         v = Obj("QuantityVector", {"dimension": D, "display_name": tag}, tag)
         v.attrs["components"] = [qobj(f"{tag}{i}", D) for i in range(n_)]
         return v
-    run.ob("A7", "pairs")
-    lv_, rv_ = vec("LV", 2), vec("RV", 2)
-    runs = explore(tree, "assert_equal_vectors", [lv_, rv_], {"relative_tolerance": RL, "absolute_tolerance": AB, "dimension": D})
-    passing = [(a_, o_, R_) for a_, o_, R_ in runs if o_[0] == "returns"]
-    ok7 = bool(passing)
-    for assume, outcome, R in passing:
-        for i in range(2):
-            sl, sr = var(f"si(LV{i})"), var(f"si(RV{i})")
-            for p_ in ("re", "im"):
-                v = next((v for v in R.verdicts.values() if verdict_matches(v, app(p_, sl), app(p_, sr), RL, AB)), None)
-                if v is None or assume.get(v.key) is not True:
-                    ok7 = False
-    if not ok7:
-        run.violate("A7", f"{M}:assert_equal_vectors:loop", mod, tree,
-                    "assert_equal_vectors can pass without every (lhs component, rhs component) pair having compared equal under the caller's tolerances")
+    for tlabel, rel, abs_ in TOLS:
+        run.ob("A7", f"pairs, {tlabel}")
+        lv_, rv_ = vec("LV", 2), vec("RV", 2)
+        runs = explore(tree, "assert_equal_vectors", [lv_, rv_], {"relative_tolerance": rel, "absolute_tolerance": abs_, "dimension": D})
+        passing = [(a_, o_, R_) for a_, o_, R_ in runs if o_[0] == "returns"]
+        ok7 = bool(passing)
+        made = []
+        for assume, outcome, R in passing:
+            for i in range(2):
+                sl, sr = var(f"si(LV{i})"), var(f"si(RV{i})")
+                for p_ in ("re", "im"):
+                    v = next((v for v in R.verdicts.values() if verdict_matches(v, app(p_, sl), app(p_, sr), rel, abs_)), None)
+                    if v is None or assume.get(v.key) is not True:
+                        ok7 = False
+                        made = made or [str(v_) for v_ in R.verdicts.values()][:4]
+        if not ok7:
+            tol_only = bool(made) and tlabel != "both tolerances given"
+            run.violate("A5" if tol_only else "A7", f"{M}:assert_equal_vectors:loop" + (f":{tlabel}" if tol_only else ""), mod, tree,
+                        f"assert_equal_vectors ({tlabel}) can pass without every (lhs component, rhs component) pair having compared equal under the caller's tolerances"
+                        + (f" (comparisons made: {made})" if made else ""))
+            break
     run.ob("A5", "vectors:dimension")
     rv_bare = Obj("QuantityVector", {"dimension": D, "display_name": "RB", "components": [var("rb0"), var("rb1")]}, "RB")
     runs = explore(tree, "assert_equal_vectors", [vec("LV", 2), rv_bare], {"relative_tolerance": RL, "absolute_tolerance": AB, "dimension": D})
